@@ -144,7 +144,7 @@ def run_assign_confidence(tables, scores, conf, workdir, name, fmt="pin", row_gr
                 do_rollup=conf.get("rollup", True),
                 rng=conf.get("seed", 0),
             )
-        except Exception as exc:  # noqa: BLE001
+        except (Exception, SystemExit) as exc:  # noqa: BLE001  (triqler calls sys.exit on degenerate input)
             res.exc = exc
             res.error = f"{short_msg(exc)} at {exc_site(exc)}"
     for f in sorted(os.listdir(dest)):
@@ -169,7 +169,7 @@ def run_rollup(src_dir, dest_dir, level="psm", file_root="rollup", sched_desc=No
         except SystemExit as exc:
             res.exc = RuntimeError(f"SystemExit({exc.code})")
             res.error = str(res.exc)
-        except Exception as exc:  # noqa: BLE001
+        except (Exception, SystemExit) as exc:  # noqa: BLE001  (triqler calls sys.exit on degenerate input)
             res.exc = exc
             res.error = f"{short_msg(exc)} at {exc_site(exc)}"
     for f in sorted(os.listdir(dest_dir)):
